@@ -1,6 +1,7 @@
 import Driver.Common
 import Lumina.Model.TxSeq
 import Lumina.Spec.C43
+import Lumina.Proofs.TxSeqLedger
 
 open Lumina.Util Lumina.Model.TxSeq
 
@@ -94,7 +95,7 @@ def isReq : Phase → Bool
   | .reqL | .reqG | .reqP | .reqE _ | .reqB _ | .reqT | .reqRB _ => true
   | _ => false
 
-def step (st : St) (line : String) : St × String :=
+def step0 (st : St) (line : String) : St × String :=
   let ws := words line
   match ws with
   | "new" :: _ => ({}, "ok")
@@ -173,12 +174,22 @@ def parseLine (obs : String) : Option OLine :=
     | _, _ => none
   | _, _ => none
 
-def oAns : Ans → OAns
-  | .okSeq n => .acctSeq n
-  | .ok | .cache => .accepted
-  | .mis n => .mismatch n
-  | .evicted | .unknown => .evicted
-  | _ => .other
+/-- the classification of answers and the observed line are the ones the theorems are about
+    (`Props/C43.lean: ledger_accepts_every_run` is stated over `oLine` / `oAnswered`) -/
+abbrev oAns := Lumina.Proofs.TxSeqLedger.oAns
+
+/-- model step + cross-check: the line the model prints, parsed back the way the spec pass parses the
+    implementation's line, must be exactly the observation `oLine` of the theorems; a difference is printed (and
+    then shows up as a model/implementation disagreement) -/
+def step (st : St) (line : String) : St × String :=
+  let (st', out) := step0 st line
+  if out.startsWith "ev=" then
+    match parseLine out with
+    | some l =>
+      if reprStr l == reprStr (Lumina.Proofs.TxSeqLedger.oLine st') then (st', out)
+      else (st', "OLINE-MISMATCH " ++ out)
+    | none => (st', "OLINE-UNPARSED " ++ out)
+  else (st', out)
 
 /-- spec verdict and the ledger after the line -/
 def specLine (l : Ledger) (op obs : String) : Ledger × String :=
